@@ -1,8 +1,11 @@
 (** C10 - Every entry point returns a value or an error, never a panic or a hang.  (partial)
     In the model a Go panic is the result [Panic] and unbounded recursion is [OutOfFuel].
-    Proved here: Unmarshal is total (value or error, budget always sufficient); Validate
-    returns Ok or Err whenever the specification defines a verdict (resolved environment,
-    recursion through instance-descending keywords within the fuel).
+    Proved here: Unmarshal is total (value or error, budget always sufficient); Resolve never
+    panics and, with a budget above the number of documents the loader can return, always
+    returns (a Resolved or an error) - for every schema tree, base URI, regexp oracle and
+    loader table, failing and cyclic loaders included; Validate returns Ok or Err whenever the
+    specification defines a verdict (resolved environment, recursion through
+    instance-descending keywords within the fuel).
     The remaining entry points and the malformed / adversarial inputs (arbitrary bytes, Schema
     graphs with nil, shared and cyclic pointers, failing loaders, odd Go values, recursive
     types) are decided by the correspondence families: every family's observation records
@@ -10,7 +13,7 @@
     "every call returns".  gen/ObPanics.v accounts for every explicit panic/assert site of
     the sources. *)
 From Coq Require Import List NArith ZArith QArith Bool.
-From JS Require Import Str Lit Json Res GoValue Hash Schema CodecBase Codec UnmarshalTotal Env Ann Validate Spec Refine Corollaries Defaults.
+From JS Require Import Str Lit Json Res GoValue Hash Schema CodecBase Codec UnmarshalTotal Env Ann Validate Spec Refine Corollaries Defaults Uri Resolve ResolveTotal.
 Import ListNotations.
 
 Theorem C10_validate_returns : forall re_match hash n e inst b,
@@ -38,3 +41,34 @@ Theorem C10_validate_refuses : forall re_match hash n e inst,
   isValidSchemaVersion (e_version e) = false -> Validate re_match hash n e inst = Err.
 Proof. exact Validate_refuses. Qed.
 Print Assumptions C10_validate_refuses.
+
+(** Resolve: no internal lookup of the resolver (bases, resource URIs, the document cache, the
+    location tables) can fail - the model's Panic branches are unreachable.  [wfs]: maps have
+    no duplicate keys, which every Go value satisfies. *)
+Theorem C10_resolve_no_panic : forall re_ok fuel root baseURI loader,
+  wfs root -> (forall u s, call_loader loader u = Some s -> wfs s) ->
+  Resolve re_ok fuel root baseURI loader <> Panic.
+Proof. exact Resolve_no_panic. Qed.
+Print Assumptions C10_resolve_no_panic.
+
+(** ... and it never hangs: a loaded document is cached before its references are followed,
+    so nested loads are at most as deep as the loader's table is long - self-referential and
+    mutually referential loader documents included *)
+Theorem C10_resolve_returns : forall re_ok fuel root baseURI loader,
+  wfs root -> (forall u s, call_loader loader u = Some s -> wfs s) ->
+  (length (loadable loader) < fuel)%nat ->
+  (exists e calls, Resolve re_ok fuel root baseURI loader = Ok (e, calls)) \/ Resolve re_ok fuel root baseURI loader = Err.
+Proof. exact Resolve_returns. Qed.
+Print Assumptions C10_resolve_returns.
+
+(** non-vacuity: two loader documents that refer to each other and to themselves *)
+Example C10_resolve_cycle_example :
+  let mk d := match JS.sch.Codec.unmarshal d with Ok s => s | _ => empty_schema end in
+  let a := mk (DObj [ (lit "$ref"%lit, DStr (lit "http://x/b"%lit)) ]) in
+  let b := mk (DObj [ (lit "properties"%lit, DObj [ (lit "p"%lit, DObj [ (lit "$ref"%lit, DStr (lit "http://x/c"%lit)) ]);
+                                                     (lit "q"%lit, DObj [ (lit "$ref"%lit, DStr (lit "http://x/b"%lit)) ]) ]) ]) in
+  let c := mk (DObj [ (lit "items"%lit, DObj [ (lit "$ref"%lit, DStr (lit "http://x/b#/properties/p"%lit)) ]) ]) in
+  let ld := Some [ (lit "http://x/b"%lit, Some b); (lit "http://x/c"%lit, Some c) ] in
+  wfsb a = true /\ wfsb b = true /\ wfsb c = true /\
+  match JS.res.Resolve.Resolve (fun _ => true) 3 a [] ld with Ok (_, calls) => length calls = 2%nat | _ => False end.
+Proof. vm_compute. repeat split. Qed.
